@@ -35,6 +35,8 @@
 #include <utime.h>
 #include <stdarg.h>
 #include <rfb/rfbregion.h>
+#include <sys/un.h>
+#include <sys/resource.h>
 
 extern int __sanitizer_install_malloc_and_free_hooks(void (*mh)(const volatile void *, size_t),
                                                      void (*fh)(const volatile void *));
@@ -43,13 +45,17 @@ extern void rfbEncryptBytes(unsigned char *bytes, char *passwd);
 
 /* ------------------------------------------------------------------ state */
 #define MAXC 16
+#define MAXFLOOD 64
 #define MAXSEG 64
 typedef struct {
   vh_conn c; int used, stopread, ws;
   unsigned char *seg[MAXSEG]; size_t seglen[MAXSEG]; int nseg, segpos;
   int eof_after;                 /* close the peer after the last segment has been delivered */
   unsigned char chal[16]; int have_chal;
+  int fault;                     /* injected once during the next op: F_* */
+  long trickle;                  /* >0: every later segment arrives `trickle` ms (virtual) after the wait began */
 } hconn;
+enum { F_NONE, F_RD_EINTR, F_RD_RESET, F_SEL_ERR, F_WR_EINTR, F_WR_ZERO, F_WSEL_ERR, F_WSEL_EINTR };
 static hconn H[MAXC];
 static rfbScreenInfoPtr scr;
 static int solo = 0, started = 0;
@@ -57,7 +63,11 @@ static char sandbox[256];
 
 /* configuration */
 static int cW = 64, cH = 48, cBpp = 4, cPw = 0, cFt = 0, cTight = 0, cXvp = 0, cUtf8 = 0, cSdh = 0,
-           cWait = 20000, cWenc = 5, cView = 0;
+           cWait = 20000, cWenc = 5, cView = 0, cHttp = 0;
+static char lpath[300], hpath[300], wwwdir[300];
+static int lsock = -1, lsock6 = -1, hlsock = -1;
+static char lpath6[300];
+static rfbClientPtr last_new_client;
 static char *passwds[] = { (char *)"secret", NULL };
 
 /* measurement */
@@ -65,7 +75,7 @@ static volatile int in_server = 0;     /* virtual time active */
 static volatile int harness_depth = 0; /* allocations made by the harness itself are not recorded */
 static int win = 0;                    /* 0 none, 1 message window, 2 update window */
 static size_t amax[3], asum[3];
-static long rwaits, wwaits, vtime_ms, longest_call_ms, call_ms;
+static long rwaits, wwaits, vtime_ms, longest_call_ms, call_ms, trickles;
 static int fs_guard = 0;
 static long fs_denied = 0;
 static long cb_kbd, cb_ptr, cb_cut, cb_utf8, cb_chat, cb_sw, cb_si, cb_xvp, cb_sds, cb_base;
@@ -117,6 +127,8 @@ int select(int nfds, fd_set *r, fd_set *w, fd_set *e, struct timeval *tv) {
   if (tv->tv_sec == 0 && tv->tv_usec == 0) return real_select(nfds, r, w, e, tv);
   if (w && !r) {                       /* rfbWriteExact waiting for the peer to drain */
     fd_set ws = *w; int fd = one_fd(nfds, w), n; hconn *h = fd >= 0 ? by_srvfd(fd) : NULL;
+    if (h && h->fault == F_WSEL_ERR) { h->fault = F_NONE; errno = EBADF; return -1; }
+    if (h && h->fault == F_WSEL_EINTR) { h->fault = F_NONE; errno = EINTR; return -1; }
     if (h) hdrain(h);
     n = real_select(nfds, NULL, &ws, NULL, &z);
     if (n != 0) { *w = ws; return n; }
@@ -127,8 +139,10 @@ int select(int nfds, fd_set *r, fd_set *w, fd_set *e, struct timeval *tv) {
   if (r) {                             /* rfbReadExactTimeout / rfbPeekExactTimeout / ws handshake */
     fd_set rs = *r, es; int fd = one_fd(nfds, r), n; hconn *h = fd >= 0 ? by_srvfd(fd) : NULL;
     if (e) es = *e;
+    if (h && h->fault == F_SEL_ERR) { h->fault = F_NONE; errno = EBADF; return -1; }
     n = real_select(nfds, &rs, NULL, e ? &es : NULL, &z);
-    if (n == 0 && h && h->segpos < h->nseg) {
+    if (n == 0 && h && h->segpos < h->nseg && (h->trickle == 0 || h->trickle < ms)) {
+      if (h->trickle) { vtime_ms += h->trickle; call_ms += h->trickle; trickles++; }
       deliver_next(h);
       rs = *r; if (e) es = *e; z.tv_sec = 0; z.tv_usec = 0;
       n = real_select(nfds, &rs, NULL, e ? &es : NULL, &z);
@@ -139,6 +153,28 @@ int select(int nfds, fd_set *r, fd_set *w, fd_set *e, struct timeval *tv) {
     return 0;
   }
   return real_select(nfds, r, w, e, tv);
+}
+
+/* fault injection on the server side of one connection -------------- */
+ssize_t read(int fd, void *buf, size_t n) {
+  static ssize_t (*real)(int, void *, size_t);
+  if (!real) real = (ssize_t (*)(int, void *, size_t))dlsym(RTLD_NEXT, "read");
+  if (in_server) {
+    hconn *h = by_srvfd(fd);
+    if (h && h->fault == F_RD_EINTR) { h->fault = F_NONE; errno = EINTR; return -1; }
+    if (h && h->fault == F_RD_RESET) { h->fault = F_NONE; errno = ECONNRESET; return -1; }
+  }
+  return real(fd, buf, n);
+}
+ssize_t write(int fd, const void *buf, size_t n) {
+  static ssize_t (*real)(int, const void *, size_t);
+  if (!real) real = (ssize_t (*)(int, const void *, size_t))dlsym(RTLD_NEXT, "write");
+  if (in_server) {
+    hconn *h = by_srvfd(fd);
+    if (h && h->fault == F_WR_EINTR) { h->fault = F_NONE; errno = EINTR; return -1; }
+    if (h && h->fault == F_WR_ZERO) { h->fault = F_NONE; return 0; }
+  }
+  return real(fd, buf, n);
 }
 
 /* file-system guard ------------------------------------------------ */
@@ -273,6 +309,15 @@ static int any_readable(void) {
   int i; for (i = 0; i < MAXC; i++) if (H[i].used && srv_readable(&H[i])) return 1;
   return 0;
 }
+static int any_readable_all(void) {
+  rfbClientIteratorPtr it = rfbGetClientIterator(scr); rfbClientPtr cl; int r = 0;
+  while ((cl = rfbClientIteratorNext(it))) {
+    struct pollfd p; p.fd = cl->sock; p.events = POLLIN; p.revents = 0;
+    if (cl->sock >= 0 && poll(&p, 1, 0) > 0) r = 1;
+  }
+  rfbReleaseClientIterator(it);
+  return r;
+}
 /* update window: the application's event loop runs until nothing is left to do */
 static void pump_updates(void) {
   int it, idle = 0, i;
@@ -310,7 +355,7 @@ static const char *aclass(size_t n) {
   return "x";
 }
 static void meas_reset(void) {
-  amax[1] = amax[2] = asum[1] = asum[2] = 0; rwaits = wwaits = vtime_ms = 0; longest_call_ms = 0;
+  amax[1] = amax[2] = asum[1] = asum[2] = 0; rwaits = wwaits = vtime_ms = 0; longest_call_ms = 0; trickles = 0;
   cb_base = cb_total();
 }
 static void capture_challenge(hconn *h) {
@@ -321,8 +366,8 @@ static void report(int id, hconn *h, int n) {
   int state = alive(h) ? (int)h->c.cl->state : -1;
   printf("r %d %s:%d n=%d rw=%ld ww=%ld vt=%ld cb=%ld a=%s\n", id, st, state, n, rwaits, wwaits, vtime_ms,
          cb_total() - cb_base, aclass(amax[1]));
-  printf("#raw id=%d amax=%zu asum=%zu umax=%zu usum=%zu call=%ld fsden=%ld cb=%ld,%ld,%ld,%ld,%ld,%ld,%ld,%ld,%ld\n",
-         id, amax[1], asum[1], amax[2], asum[2], longest_call_ms, fs_denied,
+  printf("#raw id=%d tr=%ld amax=%zu asum=%zu umax=%zu usum=%zu call=%ld fsden=%ld cb=%ld,%ld,%ld,%ld,%ld,%ld,%ld,%ld,%ld\n",
+         id, trickles, amax[1], asum[1], amax[2], asum[2], longest_call_ms, fs_denied,
          cb_kbd, cb_ptr, cb_cut, cb_utf8, cb_chat, cb_sw, cb_si, cb_xvp, cb_sds);
 }
 static void free_segs(hconn *h) {
@@ -335,6 +380,7 @@ static void after_op(int id, hconn *h, int n) {
   report(id, h, n);
   vh_buf_reset(&h->c.out);
   free_segs(h);
+  h->fault = F_NONE; h->trickle = 0;
 }
 
 static int new_conn(hconn *h, const unsigned char *pre, size_t prelen) {
@@ -398,6 +444,52 @@ static void draw(uint64_t seed) {
   }
 }
 
+/* listening sockets (AF_UNIX inside the sandbox): hostile peers arrive through
+   rfbCheckFds -> rfbProcessNewConnection -> accept -> rfbNewConnectionFromSock -> rfbNewClient */
+static int listen_unix(const char *path) {
+  struct sockaddr_un a; int s = socket(AF_UNIX, SOCK_STREAM, 0);
+  if (s < 0) return -1;
+  memset(&a, 0, sizeof a); a.sun_family = AF_UNIX;
+  if (strlen(path) >= sizeof a.sun_path) { close(s); return -1; }
+  strcpy(a.sun_path, path);
+  if (bind(s, (struct sockaddr *)&a, sizeof a) < 0 || listen(s, 128) < 0) { close(s); return -1; }
+  return s;
+}
+static int connect_unix(const char *path) {
+  struct sockaddr_un a; int s = socket(AF_UNIX, SOCK_STREAM, 0); int sz = 4 << 20;
+  if (s < 0) return -1;
+  memset(&a, 0, sizeof a); a.sun_family = AF_UNIX; strcpy(a.sun_path, path);
+  setsockopt(s, SOL_SOCKET, SO_SNDBUF, &sz, sizeof sz); setsockopt(s, SOL_SOCKET, SO_RCVBUF, &sz, sizeof sz);
+  if (connect(s, (struct sockaddr *)&a, sizeof a) < 0) { close(s); return -1; }
+  fcntl(s, F_SETFL, fcntl(s, F_GETFL) | O_NONBLOCK);
+  return s;
+}
+static long accepted_count;
+static enum rfbNewClientAction app_new_client(rfbClientPtr cl) { last_new_client = cl; accepted_count++; return RFB_CLIENT_ACCEPT; }
+static int listener_pending(void) {
+  struct pollfd p; p.fd = lsock; p.events = POLLIN; p.revents = 0;
+  return lsock >= 0 && poll(&p, 1, 0) > 0 && (p.revents & POLLIN);
+}
+/* connect through the listening socket; returns with h->c.cl set iff the server accepted */
+static void listen_conn(hconn *h, const unsigned char *pre, size_t prelen, int close_first) {
+  memset(&h->c, 0, sizeof h->c);
+  h->used = 1;
+  h->c.peer = connect_unix(((h - H) & 1) && lsock6 >= 0 ? lpath6 : lpath); h->c.srvfd = -1;   /* odd ids: second listener */
+  if (h->c.peer < 0) { fprintf(stderr, "c04 harness: cannot connect to the listening socket: %s\n", strerror(errno)); exit(3); }
+  if (prelen && write(h->c.peer, pre, prelen) < 0) {}
+  if (close_first) { close(h->c.peer); h->c.peer = -1; }
+  last_new_client = NULL;
+  win_begin(1);
+  rfbCheckFds(scr, 0);
+  win_end();
+  if (last_new_client) {
+    h->c.cl = last_new_client; h->c.srvfd = last_new_client->sock;
+    h->c.cl->clientData = &h->c; h->c.cl->clientGoneHook = vh_gone_hook;
+    if (cView) h->c.cl->viewOnly = TRUE;
+    if (h->c.cl->sock == RFB_INVALID_SOCKET) { /* closed inside rfbNewClient is reported as NULL by the library */ }
+  }
+}
+
 /* ------------------------------------------------------------------ main */
 static int kv(const char *tok, const char *key, int *out) {
   size_t n = strlen(key);
@@ -411,6 +503,9 @@ int main(int argc, char **argv) {
   for (i = 1; i < argc; i++) if (!strcmp(argv[i], "--solo")) solo = 1;
   signal(SIGALRM, hang);
   snprintf(sandbox, sizeof sandbox, "/tmp/c04sbx-%07d", (int)getpid());
+  { /* a stale sandbox of a dead process with the same pid (its socket files would make bind fail) */
+    char cmd[400]; snprintf(cmd, sizeof cmd, "rm -rf '%s'", sandbox); if (system(cmd)) {}
+  }
   mkdir(sandbox, 0700);
   setenv("HOME", sandbox, 1);
   __sanitizer_install_malloc_and_free_hooks(mhook, fhook);
@@ -423,7 +518,7 @@ int main(int argc, char **argv) {
         if (kv(tok[i], "w", &cW) || kv(tok[i], "h", &cH) || kv(tok[i], "bpp", &cBpp) || kv(tok[i], "pw", &cPw) ||
             kv(tok[i], "ft", &cFt) || kv(tok[i], "tight", &cTight) || kv(tok[i], "xvp", &cXvp) ||
             kv(tok[i], "utf8", &cUtf8) || kv(tok[i], "sdh", &cSdh) || kv(tok[i], "wait", &cWait) ||
-            kv(tok[i], "wenc", &cWenc) || kv(tok[i], "view", &cView)) continue;
+            kv(tok[i], "wenc", &cWenc) || kv(tok[i], "view", &cView) || kv(tok[i], "http", &cHttp)) continue;
         puts("bad-op"); goto next;
       }
       puts("ok");
@@ -446,12 +541,29 @@ int main(int argc, char **argv) {
       snprintf(f, sizeof f, "%s/a.txt", sandbox); fd = open(f, O_CREAT | O_WRONLY, 0600);
       if (fd >= 0) { if (write(fd, "hello world\n", 12) < 0) {} close(fd); }
       snprintf(f, sizeof f, "%s/d", sandbox); mkdir(f, 0700);
+      scr->newClientHook = app_new_client;
+      snprintf(lpath, sizeof lpath, "%s/.rfb.sock", sandbox);
+      lsock = listen_unix(lpath);
+      if (lsock >= 0) { scr->listenSock = lsock; FD_SET(lsock, &scr->allFds); if (lsock > scr->maxFd) scr->maxFd = lsock; }
+      snprintf(lpath6, sizeof lpath6, "%s/.rfb6.sock", sandbox);
+      lsock6 = listen_unix(lpath6);
+      if (lsock6 >= 0) { scr->listen6Sock = lsock6; FD_SET(lsock6, &scr->allFds); if (lsock6 > scr->maxFd) scr->maxFd = lsock6; }
+      if (cHttp) {
+        snprintf(wwwdir, sizeof wwwdir, "%s/www", sandbox); mkdir(wwwdir, 0700);
+        snprintf(f, sizeof f, "%s/index.vnc", wwwdir); fd = open(f, O_CREAT | O_WRONLY, 0600);
+        if (fd >= 0) { if (write(fd, "<html>$WIDTH x $HEIGHT $PORT $USER</html>\n", 42) < 0) {} close(fd); }
+        snprintf(f, sizeof f, "%s/a.txt", wwwdir); fd = open(f, O_CREAT | O_WRONLY, 0600);
+        if (fd >= 0) { if (write(fd, "plain\n", 6) < 0) {} close(fd); }
+        snprintf(hpath, sizeof hpath, "%s/.http.sock", sandbox);
+        hlsock = listen_unix(hpath);
+        if (hlsock >= 0) { scr->httpDir = wwwdir; scr->httpListenSock = hlsock; scr->httpInitDone = TRUE; }
+      }
       started = 1;
       puts(wit_start() ? "ok" : "witness-failed");
     } else if (!started) {
       puts("bad-op");
-    } else if (!strcmp(tok[0], "conn") && n == 3) {
-      int id = atoi(tok[1]); static unsigned char pre[8192]; long pl; hconn *h;
+    } else if ((!strcmp(tok[0], "conn") && n == 3) || (!strcmp(tok[0], "lconn") && (n == 3 || (n == 4 && !strcmp(tok[3], "eof"))))) {
+      int id = atoi(tok[1]); static unsigned char pre[8192]; long pl; hconn *h; int via_listener = tok[0][0] == 'l';
       if (solo) { goto next; }
       if (id <= 0 || id >= MAXC) { puts("bad-op"); goto next; }
       if (H[id].used && alive(&H[id])) {     /* the old peer of this slot hangs up first */
@@ -466,7 +578,8 @@ int main(int argc, char **argv) {
       pl = vh_unhex(tok[2], pre, sizeof pre);
       if (pl < 0) { puts("bad-op"); goto next; }
       h = &H[id]; meas_reset();
-      new_conn(h, pre, (size_t)pl);
+      if (via_listener) listen_conn(h, pre, (size_t)pl, n == 4);
+      else new_conn(h, pre, (size_t)pl);
       if (h->c.cl && h->c.cl->wsctx) h->ws = 1;
       after_op(id, h, pump_conn(h));
     } else if (!strcmp(tok[0], "send") && n >= 3) {
@@ -483,6 +596,11 @@ int main(int argc, char **argv) {
           char *p = tok[k] + 2;
           while (*p && nc < MAXSEG - 2) { size_t v = strtoul(p, &p, 10); if (v > prev && v < (size_t)bl) { cuts[nc++] = v; prev = v; } if (*p == ',') p++; }
         } else if (!strcmp(tok[k], "eof")) h->eof_after = 1;
+        else if (!strncmp(tok[k], "trickle=", 8)) {      /* one byte per segment, each `ms` after the wait began */
+          h->trickle = atol(tok[k] + 8); nc = 0;
+          for (prev = 1; prev < (size_t)bl && nc < MAXSEG - 2; prev++) cuts[nc++] = prev;
+          prev = 0;
+        }
       }
       prev = 0;
       for (k = 0; k <= nc; k++) {
@@ -513,6 +631,59 @@ int main(int argc, char **argv) {
       h = &H[id]; meas_reset();
       if (h->c.peer >= 0) { close(h->c.peer); h->c.peer = -1; }
       after_op(id, h, pump_conn(h));
+    } else if (!strcmp(tok[0], "fault") && n == 3) {
+      int id = atoi(tok[1]); int k = F_NONE;
+      if (solo) goto next;
+      if (id <= 0 || id >= MAXC || !H[id].used) { puts("bad-op"); goto next; }
+      if (!strcmp(tok[2], "rd_eintr")) k = F_RD_EINTR; else if (!strcmp(tok[2], "rd_reset")) k = F_RD_RESET;
+      else if (!strcmp(tok[2], "sel_err")) k = F_SEL_ERR; else if (!strcmp(tok[2], "wr_eintr")) k = F_WR_EINTR;
+      else if (!strcmp(tok[2], "wr_zero")) k = F_WR_ZERO; else if (!strcmp(tok[2], "wsel_err")) k = F_WSEL_ERR;
+      else if (!strcmp(tok[2], "wsel_eintr")) k = F_WSEL_EINTR; else { puts("bad-op"); goto next; }
+      H[id].fault = k;
+      puts("ok");
+    } else if (!strcmp(tok[0], "lflood") && n == 2) {
+      /* many simultaneous connects through the listening socket with a low RLIMIT_NOFILE: the
+         fd-quota logic of rfbProcessNewConnection must refuse some, and none may wedge the server */
+      int want = atoi(tok[1]), k, peers[MAXFLOOD], refused = 0, it; long acc0; struct rlimit old, low;
+      if (solo) goto next;
+      if (want < 1 || want > MAXFLOOD || lsock < 0) { puts("bad-op"); goto next; }
+      { /* quota = half the limit: choose the limit so that about half of the connects fit */
+        int base = 0, fdn; for (fdn = 0; fdn < 1024; fdn++) if (fcntl(fdn, F_GETFD) != -1) base++;
+        getrlimit(RLIMIT_NOFILE, &old); low = old; low.rlim_cur = (rlim_t)(2 * (base + want + want / 2)); }
+      for (k = 0; k < want; k++) peers[k] = connect_unix(lpath);
+      setrlimit(RLIMIT_NOFILE, &low);
+      acc0 = accepted_count; meas_reset();
+      for (it = 0; it < 4 * want && listener_pending(); it++) { win_begin(1); rfbCheckFds(scr, 0); win_end(); }
+      for (k = 0; k < want; k++) if (peers[k] >= 0) {
+        char b; ssize_t r = read(peers[k], &b, 1);
+        if (r == 0) refused++;                       /* closed by the server without a version string */
+        close(peers[k]);
+      }
+      setrlimit(RLIMIT_NOFILE, &old);
+      for (it = 0; it < 4 * want && any_readable_all(); it++) { win_begin(1); rfbCheckFds(scr, 0); win_end(); }
+      pump_updates();
+      puts("ok");
+      printf("#flood want=%d accepted=%ld refused=%d rw=%ld vt=%ld\n", want, accepted_count - acc0, refused, rwaits, vtime_ms);
+    } else if (!strcmp(tok[0], "http") && n >= 2) {
+      /* smoke stream for the HTTP listener (deep coverage: C20) */
+      static unsigned char rq[70000]; long rl; int fd, it; size_t got = 0; char tmp[4096];
+      if (solo) goto next;
+      rl = vh_unhex(tok[1], rq, sizeof rq);
+      if (rl < 0 || hlsock < 0) { puts("bad-op"); goto next; }
+      fd = connect_unix(hpath);
+      if (fd < 0) { puts("bad-op"); goto next; }
+      if (rl && write(fd, rq, (size_t)rl) < 0) {}
+      if (n == 3 && !strcmp(tok[2], "eof")) shutdown(fd, SHUT_WR);
+      meas_reset();
+      for (it = 0; it < 50; it++) {
+        ssize_t r;
+        win_begin(2); rfbProcessEvents(scr, 0); win_end();
+        while ((r = read(fd, tmp, sizeof tmp)) > 0) got += (size_t)r;
+      }
+      close(fd);
+      win_begin(2); rfbProcessEvents(scr, 0); win_end();
+      puts("ok");
+      printf("#http sent=%ld got=%zu vt=%ld\n", rl, got, vtime_ms);
     } else if (!strcmp(tok[0], "stopread") && n == 2) {
       int id = atoi(tok[1]); hconn *h;
       if (solo) goto next;
@@ -551,6 +722,11 @@ int main(int argc, char **argv) {
         memset(s, 'x', (size_t)len);
         in_server = 1; rfbSendServerCutText(scr, s, len); in_server = 0;
         free(s);
+      } else if (!strcmp(tok[1], "cututf8") && n == 3) {
+        int len = atoi(tok[2]); char *s8 = (char *)calloc((size_t)len + 1, 1);
+        memset(s8, 'u', (size_t)len);
+        in_server = 1; rfbSendServerCutTextUTF8(scr, s8, len, s8, len); in_server = 0;
+        free(s8);
       } else if (!strcmp(tok[1], "bell")) {
         in_server = 1; rfbSendBell(scr); in_server = 0;
       } else { puts("bad-op"); goto next; }
